@@ -1,3 +1,16 @@
+mod c15;
+mod c16;
+mod c17;
+mod fx;
+mod refalgo;
+mod truth;
+
+use pvkit::session::CheckDef;
+
 fn main() {
-    pvkit::main(&[]);
+    pvkit::main(&[
+        CheckDef { id: "C15", level: "exploration", run: c15::run },
+        CheckDef { id: "C16", level: "exploration", run: c16::run },
+        CheckDef { id: "C17", level: "exploration", run: c17::run },
+    ]);
 }
